@@ -178,6 +178,21 @@ PROPS = {
         "assumptions": ["the semantic table (left - right, text ~ pattern, item in container, container . key) is the reference's"],
         "technique": "static analysis: provenance composition translator/VM over MIR, linear forms for jump offsets, table agreement",
     },
+    "C04": {
+        "module": "c04",
+        "explanation": "R13: every panic-capable site (explicit panics, unwrap/expect, std APIs with a panicking precondition, overflow / "
+                       "bounds / division assertions, integer operator impls) in every function reachable from the compiler's entry points "
+                       "(call graph with trait expansion) is enumerated from MIR and discharged by a type class, a guard idiom decided on "
+                       "the CFG (dominating is_some / is_empty / bounds tests, drain(0..), linear forms over OpsMap::len), another rule "
+                       "(R97 for RefCell, R82 for parallel vectors, R83 for closed word sets and END) or a reviewed table entry with an "
+                       "invariant class; a new site is unlisted and reported. R80: arity check dominating every callback call. R76/R77/R78: "
+                       "structural termination of the grammar (nullable / first-set analysis of the extracted grammar), the tokenizer and "
+                       "the VM dispatch (forward jumps only). Not decided: running time, stack depth as a function of nesting, user-level "
+                       "recursion; the translator-stack class (no VM stack underflow) is an assumption premised on R80.",
+        "assumptions": ["translator-stack invariant: every opcode pops what the translator pushed before it (premised on R80, R4, R1; not proved)",
+                        "panics inside dependencies on well-typed arguments are out of scope", "unwinding allocation failure is out of scope"],
+        "technique": "static analysis: call-graph reachability + panic-site enumeration over MIR with CFG guard idioms; grammar nullability",
+    },
 }
 
 
